@@ -67,6 +67,7 @@ TABLE = {
     "../seeded/C05-4/patch.diff": ("contracts.c05", "_extract_simple_comparison", "5 CMP x with CMP = <"),
     "../seeded/C06-3/patch.diff": ("contracts.c06", "_is_simple_source_ref", "IREntityOutput"),
     "../seeded/C02-4/patch.diff": ("contracts.c02", "_inject_output_value_wire_color", "another gate"),
+    "../seeded/C14-1/patch.diff": ("contracts.c14", "visit_FuncDecl", None),
     "../seeded/C01-4/patch.diff": ("contracts.c07", "_configure_decider", "operation = <"),
 }
 RUNNER = r'''
